@@ -25,8 +25,19 @@ def legal : Raw → Bool
   | [r] => decide (1 ≤ r.1) && decide (r.1 ≤ r.2)
   | r :: s :: rest => decide (1 ≤ r.1) && decide (r.1 ≤ r.2) && decide (r.2 < s.1) && legal (s :: rest)
 
-/-- what a reader gets out of a stored vector: the vector if legal, otherwise an error (`none`) -/
-def reading (rs : Raw) : Option Raw := if legal rs then some rs else none
+/-- joining ranges that touch (`[a..b], [b+1..c]` is the same set of heights as `[a..c]`) -/
+def mergeFrom (cur : Nat × Nat) : Raw → Raw
+  | [] => [cur]
+  | r :: rest => if cur.2 + 1 = r.1 then mergeFrom (cur.1, r.2) rest else cur :: mergeFrom r rest
+
+/-- the canonical form of a legal vector: touching ranges joined -/
+def merge : Raw → Raw
+  | [] => []
+  | r :: rest => mergeFrom r rest
+
+/-- what a reader gets out of a stored vector: the set of heights it denotes, in canonical form,
+    if the vector is legal; otherwise an error (`none`) -/
+def reading (rs : Raw) : Option Raw := if legal rs then some (merge rs) else none
 
 /-- the vector stored under `key` in `STORE.RANGES` (missing table / missing key = empty) -/
 def underKey (db : Db) (key : String) : Raw :=
